@@ -779,6 +779,8 @@ def s_opt_unwrap_or_default(vm, st, callee, args, dest, ret_bb, m):
         dflt = mk_bool(False)
     elif 'Vec<' in callee:
         dflt = VecV(())
+    elif 'TokenStream' in callee:
+        dflt = Tokens()
     else:
         mm = re.match(r'^Option::<(.*)>::unwrap_or_default$', callee)
         fn = vm.resolve_local(f'<{mm.group(1)} as Default>::default', []) if mm else None
@@ -1082,8 +1084,12 @@ def tokens_of(vm, st, v):
         return tokens_of(vm, st, v.fields[0]) if v.variant == 1 else ()
     if isinstance(v, Agg) and v.tag == 'Cow':
         return (('lit', as_str(vm, st, v).s),)
+    if isinstance(v, Agg) and v.tag == 'RepInterp':
+        return tokens_of(vm, st, v.fields[0])
     if isinstance(v, Opaque):
         return (('opaque', v.tag, v.data),)
+    if isinstance(v, Agg) and v.tag in ('Visibility', 'Path'):
+        return (('opaque', v.tag, v.variant),)
     if z3.is_bool(v) or z3.is_bv(v):
         return (('lit', v),)
     raise Unsupported(f'ToTokens of {v!r}')
@@ -1109,6 +1115,15 @@ def s_format(vm, st, callee, args, dest, ret_bb, m):
     """format!(..): some string; its content is irrelevant to every property (messages are not compared)"""
     _fmt_counter[0] += 1
     return done(vm, st, dest, ret_bb, StrV(z3.String(f'formatted#{_fmt_counter[0]}')))
+
+
+def s_quote_into_iter(vm, st, callee, args, dest, ret_bb, m):
+    # (iterator over the repeated items, HasIterator marker)
+    return done(vm, st, dest, ret_bb, Agg(None, [IterV(slice_items(vm, st, args[0])), Opaque('HasIterator')]))
+
+
+def s_opaque_marker(vm, st, callee, args, dest, ret_bb, m):
+    return done(vm, st, dest, ret_bb, Opaque('marker'))
 
 
 def s_span(vm, st, callee, args, dest, ret_bb, m):
@@ -1216,6 +1231,8 @@ TABLE = [
     (r'^quote::__private::parse$', s_quote_parse),
     (r'^(proc_macro2::)?Ident::new$', s_ident_new),
     (r'^Span::call_site$', s_span),
+    (r' as quote::__private::ext::RepAsIteratorExt<.*>>::quote_into_iter$', s_quote_into_iter),
+    (r'^<quote::__private::(ThereIsNoIteratorInRepetition|HasIterator) as std::ops::BitOr<.*>>::bitor$', s_opaque_marker),
     (r'^core::fmt::rt::Argument::<.*>::new_(display|debug)::<', s_fmt_opaque),
     (r'^(core::fmt::|std::fmt::)?Arguments::<.*>::(new|new_v1|new_const|from_str)(::<.*>)?$', s_fmt_opaque),
     (r'^(alloc::fmt::|std::fmt::)?format$', s_format),
